@@ -324,7 +324,10 @@ class EvalMixin:
                         return FuncV(m, m.node, base, None, (), m.module)
                 return SymV(f"self.{attr}")
             if attr == "status" and o.kind in ("stage", "task", "workflow", "message", "obj"):
-                v = StatusV(self._default_status(st, o)) if o.kind != "obj" else TOP
+                if o.kind == "obj":
+                    return TOP
+                v = StatusV(self._default_status(st, o), f"{base.oid}.status")
+                st.set_attr(base, "status", v)
                 return v
             if attr in ATTR_KINDS and o.kind in ("stage", "task", "workflow", "obj"):
                 kind, elem = ATTR_KINDS[attr]
@@ -462,7 +465,7 @@ class EvalMixin:
                 if m is not None:
                     return self.inline(st, FuncV(m, m.node, base, None, (), m.module), args, kwargs, node, abrupt, force=True)
             if attr == "determine_status":
-                return [(st, StatusV(self.ALL))]
+                return [(st, StatusV(self.ALL, f"determine_status@{getattr(node, 'lineno', 0)}"))]
             if attr in STAGE_LIST_METHODS:
                 return [(st, self.mk(st, node, "list", None, ("call", attr, base.oid), elem="stage"))]
             if attr in TASK_METHODS:
@@ -860,7 +863,9 @@ class EvalMixin:
             if isinstance(new_expr, ast.Name) and isinstance(new, StatusV):
                 legal_to = frozenset(t for t in to if any(t == f or t in self.T.transitions.get(f, frozenset()) for f in legal_from))
                 if legal_to:
-                    self.assign_name_keep_facts(st, new_expr.id, StatusV(legal_to))
+                    self.assign_name_keep_facts(st, new_expr.id, StatusV(legal_to, new.tok))
+                    if new.tok:
+                        self._propagate(st, new.tok, legal_to)
 
 
 def _delayed(delay) -> str:
